@@ -15,12 +15,12 @@ STUBS = ['std::vector<std::string> push_back/operator[]/~vector: models/vecstr_p
 LSTUBS = STUBS + ['std::ofstream(path, mode): models/ofstream_null.c (opening is a successful no-op, the opened path is observed)', 'pthread_mutex_*: models/pthread_seq.c (sequential, lock state checked)']
 
 def lus(n):
-    r = 'FIX8::FileLogger::rotate'; m = '_ZN4FIX810FileLogger6rotateEb'
-    return ['main.0:%d' % (n + 1)] + ['%s.%d:%d' % (m, i, n) for i in range(4)] + ['st_vecstr_dtor.0:%d' % (n + 1), 'x_strlen.0:4',
+    m = '_ZN4FIX810FileLogger6rotateEb'
+    return ['main.0:%d' % (n + 1), 'main.1:%d' % (n + 1), 'main.2:%d' % (n + 1)] + ['%s.%d:%d' % (m, i, n) for i in range(4)] + ['st_vecstr_dtor.0:%d' % (n + 1), 'x_strlen.0:4',
             'x__ZNKSt7__cxx1112basic_stringIcSt11char_traitsIcESaIcEE12find_last_ofEPKcm.0:4', 'x__ZNKSt7__cxx1112basic_stringIcSt11char_traitsIcESaIcEE12find_last_ofEPKcm.1:4',
             'vf_copy.0:14', 'gen_of.0:4', 'gen_of.1:6', 'gen_of.2:5', 'rec_init.0:%d' % (n + 1), 'rec_init.1:2', 'rec_rename.0:2']
 def pus(n):
-    return ['main.0:%d' % (n + 1), 'main.1:%d' % (n + 1), 'x_strlen.0:4', 'x_access.0:3', 'st_vecstr_dtor.0:%d' % (n + 1), 'vf_copy.0:14', 'gen_of.0:5', 'gen_of.1:6', 'gen_of.2:6',
+    return ['main.%d:%d' % (i, n + 1) for i in range(4)] + ['x_strlen.0:4', 'x_access.0:3', 'st_vecstr_dtor.0:%d' % (n + 1), 'vf_copy.0:14', 'gen_of.0:5', 'gen_of.1:6', 'gen_of.2:6',
             'rec_init.0:%d' % (n + 1), 'rec_init.1:3', 'rec_rename.0:3']
 
 def max_rotation():
@@ -38,6 +38,13 @@ def run(ctx):
                   models=['cxx.c', 'stubs.c', 'cxx_more.c', 'ostream_fmt.c', 'pthread_seq.c', 'ofstream_null.c', 'vecstr_pool.c'], provided=['rename', 'vf_ofs_opened'])
     C26.build_file(ctx, out='c29f.c', roots=['vf_fp_ctor', 'vf_fp_init', 'vf_max_rotation'], provided=['rename', 'access', 'open', 'read'], extra_ll=[shim],
                    models=['cxx.c', 'stubs.c', 'cxx_more.c', 'ostream_fmt.c', 'vecstr_pool.c'], stubfiles=['common.stubs', 'store.stubs', 'c29.stubs'])
+    # the same code with opaque names (models/ostream_null.c) for the 1000+ iteration runs around the documented maximum
+    ctx.translate(ll, ['vf_max_rotation', 'vf_fl_setup', 'vf_fl_rotate', 'vf_flag_append', 'vf_flag_compress'], 'c29lb.c', stubfiles=['common.stubs', 'store.stubs', 'c29.stubs'],
+                  models=['cxx.c', 'stubs.c', 'cxx_more.c', 'ostream_null.c', 'pthread_seq.c', 'ofstream_null.c', 'vecstr_pool.c'], provided=['rename', 'vf_ofs_opened'])
+    C26.build_file(ctx, out='c29fb.c', roots=['vf_fp_ctor', 'vf_fp_init', 'vf_max_rotation'], provided=['rename', 'access', 'open', 'read'], extra_ll=[shim],
+                   models=['cxx.c', 'stubs.c', 'cxx_more.c', 'ostream_null.c', 'vecstr_pool.c'], stubfiles=['common.stubs', 'store.stubs', 'c29.stubs'])
+    BIGDEF = ['BIG', 'VF_VEC_OPAQUE', 'VF_VEC_CAP=%d' % (cap + 4)]
+    BIGNOTE = '; names opaque (ostream no-op, vector elements not constructed), flags 0 / purge: only the vector indexing and the number of renames are observed'
     # ---- harnesses: (rotnum, compressed-names variant)
     small = [(0, 0), (1, 0), (2, 0), (6, 0), (3, 1)] if ctx.tier == 'quick' else [(r, c) for r in range(7) for c in (0, 1)]
     big = [cap + 1] if ctx.tier == 'quick' else [cap - 1, cap, cap + 1, cap + 76]
@@ -45,19 +52,19 @@ def run(ctx):
         n = r + 4; isbig = r > 6
         if isbig and kf_class_excluded(defs, r, cap): continue
         ctx.add(Harness('C29_log_rot%d%s' % (r, '_gz' if comp else ''), VERIF + '/harness/C29_log.c',
-                        defines=defs + ['ROTNUM=%d' % r, 'VF_MAXCOPY=12', 'VF_VEC_CAP=%d' % (min(r, cap) + 3), 'VF_VEC_N=1'] + (['COMPRESSED'] if comp else []), unwind=3, unwindset=lus(n),
-                        timeout=900 if not isbig else 2400, mem_gb=16, functions=LFUN, stubs=LSTUBS, nochecks=isbig, cover=not isbig,
-                        bounds='rotation count %d (documented maximum %d read from logger.hpp), flags {append%s} and force symbolic, every set of pre-existing generations name..name.%d with distinct contents' % (r, cap, ', compress' if comp else '', n - 2),
+                        defines=defs + ['ROTNUM=%d' % r, 'VF_MAXCOPY=12', 'VF_VEC_N=1'] + (BIGDEF if isbig else ['VF_VEC_CAP=%d' % (r + 3)]) + (['COMPRESSED'] if comp else []), unwind=3, unwindset=lus(n),
+                        timeout=900 if not isbig else 2400, mem_gb=16, functions=LFUN, stubs=LSTUBS, nochecks=isbig,
+                        bounds=('rotation count %d (documented maximum %d read from logger.hpp)' % (r, cap)) + (BIGNOTE if isbig else ', flags {append%s} and force symbolic, every set of pre-existing generations name..name.%d with distinct contents' % (', compress' if comp else '', n - 2)),
                         desc='real FileLogger::rotate over the rename recorder'))
     psmall = [(0,), (2,), (6,)] if ctx.tier == 'quick' else [(r,) for r in range(7)]
     pbig = [cap + 1] if ctx.tier == 'quick' else [cap, cap + 1, cap + 76]
     for (r,) in psmall + [(b,) for b in pbig]:
         n = r + 4; isbig = r > 6
         if isbig and kf_class_excluded(defs, r, cap): continue
-        ctx.add(Harness('C29_fp_rot%d' % r, VERIF + '/harness/C29_fp.c', defines=defs + ['ROTNUM=%d' % r, 'VF_MAXCOPY=16', 'VF_VEC_CAP=%d' % (min(r, cap) + 3), 'VF_VEC_N=2'], unwind=(r + 3) if not isbig else 3,
+        ctx.add(Harness('C29_fp_rot%d' % r, VERIF + '/harness/C29_fp.c', defines=defs + ['ROTNUM=%d' % r, 'VF_MAXCOPY=12', 'VF_VEC_N=2'] + (BIGDEF if isbig else ['VF_VEC_CAP=%d' % (r + 3)]), unwind=(r + 3) if not isbig else 3,
                         unwindset=pus(n) + (['_ZN4FIX813FilePersister10initialiseERKNSt7__cxx1112basic_stringIcSt11char_traitsIcESaIcEEES8_b.%d:%d' % (i, n) for i in range(17)] if isbig else []),
-                        timeout=900 if not isbig else 2400, mem_gb=16, functions=PFUN, stubs=STUBS, nochecks=isbig, cover=not isbig,
-                        bounds='rotation count %d (documented maximum %d), purge symbolic, every set of pre-existing data and index generations ./s[.k][.idx], k <= %d, with distinct contents' % (r, cap, n - 2),
+                        timeout=900 if not isbig else 2400, mem_gb=16, functions=PFUN, stubs=STUBS, nochecks=isbig,
+                        bounds=('rotation count %d (documented maximum %d)' % (r, cap)) + (BIGNOTE if isbig else ', purge symbolic, every set of pre-existing data and index generations ./s[.k][.idx], k <= %d, with distinct contents' % (n - 2)),
                         desc='real FilePersister::initialise (purge rotation) over the rename recorder'))
     ctx.assumptions += ['rename() follows POSIX: atomic replace of the target, ENOENT for a missing source (harness/C29_rec.h)', 'operator new never fails',
                         'counts 7..%d and %d.. other than the listed boundary values are not run (the loops are uniform in the count; stated, not proved)' % (cap - 2, cap + 2),
@@ -75,11 +82,15 @@ def replay(ctx, cx, h=None):
     """native ASan run of the real rotate()/initialise(purge) with the rotation count of the counterexample"""
     c = cx.get('cx', cx)
     exe = ctx.native('c29replay', ['replay/c29_replay.cpp', REPO + '/runtime/logger.cpp', REPO + '/runtime/filepersist.cpp'],
-                     flags=('-O1', '-g', '-fsanitize=address,undefined', '-fno-sanitize=vptr', '-D_GLIBCXX_SANITIZE_VECTOR'),
+                     flags=('-O1', '-g', '-fsanitize=address,undefined', '-fno-sanitize=vptr', '-D_GLIBCXX_SANITIZE_VECTOR', '-fno-access-control'),
                      libs=['-L' + REPO + '/runtime/.libs', '-lfix8', '-Wl,-rpath,' + REPO + '/runtime/.libs'])
     which = c.get('which') or ('fp' if (h is not None and '_fp_' in h.name) else 'log')
     rot = int(c.get('cx_rotnum', 0)); flags = int(c.get('cx_flags', 0)); force = int(c.get('cx_force', 0)); purge = int(c.get('cx_purge', 1))
-    r = sh([exe, which, str(rot), str(flags), str(force if which == 'log' else purge)], env=dict(os.environ, ASAN_OPTIONS='detect_leaks=0:detect_container_overflow=1'))
+    ex = c.get('cx_ex0', []); ex = ex if isinstance(ex, list) else [ex]
+    masks = [str(int(m)) for m in ex[:(1 if which == 'log' else 2)]] if rot <= 29 else []
+    tmp = tempfile.mkdtemp(prefix='vf_c29_')
+    try: r = sh([exe, which, str(rot), str(flags), str(force if which == 'log' else purge)] + masks, env=dict(os.environ, ASAN_OPTIONS='detect_leaks=0:detect_container_overflow=1', VF_C29_DIR=tmp))
+    finally: shutil.rmtree(tmp, ignore_errors=True)
     out = (r.stdout or '')
     key = [l for l in out.splitlines() if 'ERROR: AddressSanitizer' in l or 'VIOLATED' in l or 'runtime error' in l]
     return r.returncode != 0, ('%s rotnum=%d -> ' % (which, rot)) + (' | '.join(key)[:400] if key else out.strip()[-300:].replace('\n', ' | '))
